@@ -793,6 +793,80 @@ def record_runs(exprs_with_asg):
     return traces
 
 
+def report_stepwise_rejections(res: Result, work: Work, rejected, diag, tag="evalresult"):
+    """a run whose callbacks are no behaviour of the machine is a VIOLATION only if its result contradicts the specification as well (the properties fix
+    results, not how an implementation arrives at them); otherwise it is recorded as a structural divergence of the implementation"""
+    if not rejected:
+        return
+    cases = [(t["expr"], {int(k): v for k, v in t["asg"]}) for t in rejected]
+    t3, bad = result_level_decision(work, cases, tag=tag)
+    res.add_tlc(f"EvalResultTrace: {len(rejected)} runs whose callbacks the machine does not reproduce, decided on their results", t3)
+    bad_idx = {i: (final, exp) for i, final, exp in bad}
+    res.coverage["runs_with_other_callback_structure_but_correct_result"] = res.coverage.get("runs_with_other_callback_structure_but_correct_result", 0) + len(rejected) - len(bad)
+    for i, t in enumerate(rejected):
+        at, exp = diag.get(t["id"], (0, ()))
+        ev = t["events"][at - 1] if 0 < at <= len(t["events"]) else None
+        if i in bad_idx:
+            res.violation(f"recorded evaluation of '{t['expr']}' is not a behaviour of Eval.tla: event {at} {ev}; the spec computes {exp}; and its result "
+                          f"{bad_idx[i][0]} contradicts the documented semantics {bad_idx[i][1]}",
+                          {"kind": "trace", "expr": t["expr"], "asg": dict(map(tuple, t["asg"])), "event_index": at, "event": ev})
+        elif len(res.coverage.setdefault("callback_structure_divergences", [])) < 3:
+            res.coverage["callback_structure_divergences"].append({"expr": t["expr"], "event_index": at, "event": ev, "machine": str(exp)[:300]})
+
+
+def eval_tree_of(expr):
+    """condition expression -> syntax tree in Eval.tla's form (lists), via the real parser; kinds by key range"""
+    import ahb
+    from ahbicht.expressions.condition_expression_parser import parse_condition_expression_to_tree
+
+    def conv(n):
+        if n[0] == "leaf":
+            k = int(n[2])
+            kind = "rc" if (1 <= k <= 499 or 2000 <= k <= 2499) else "hint" if 500 <= k <= 900 else "fc"
+            return ["leaf", kind, k]
+        return [n[0], conv(n[1]), conv(n[2])]
+
+    return conv(ahb.cond_tree_binary(parse_condition_expression_to_tree(expr)))
+
+
+_OUTCOME_INV = {v: k for k, v in OUTCOME.items()}
+
+
+def result_level_decision(work: Work, cases, tag="evalresult"):
+    """second level of the trace validation: runs whose recorded callbacks are no behaviour of Eval.tla's machine are evaluated once more WITHOUT the
+    recording subclass and decided by TLC on their results (EvalResultTrace.tla). cases: [(expr, asg)] -> (tlc result, [(index, expected)] of the
+    runs whose RESULT contradicts the specification)"""
+    import ahb
+    from ahbicht.expressions import InvalidExpressionError
+    from ahbicht.expressions.requirement_constraint_expression_evaluation import requirement_constraint_evaluation
+    traces = []
+
+    async def go():
+        for i, (expr, asg) in enumerate(cases, start=1):
+            ahb.set_cer_values(rc=asg, fc={k: True for k in range(901, 1000)}, hints={k: ahb.hint_text(k) for k in range(500, 901)})
+            final = {"err": "nil", "st": "-", "fcx": []}
+            try:
+                r = await requirement_constraint_evaluation(expr)
+                final["st"] = _OUTCOME_INV.get((B2S[r.requirement_constraints_fulfilled], B2S[r.requirement_is_conditional]), "?")
+                if r.format_constraints_expression:
+                    try:
+                        final["fcx"] = _to_list(real_fc_ast(r.format_constraints_expression))
+                    except ValueError:
+                        final["fcx"] = ["malformed", r.format_constraints_expression]
+            except InvalidExpressionError:
+                final["err"] = "invalid"
+            except NotImplementedError:
+                final["err"] = "unsupported"
+            tree = eval_tree_of(expr)
+            keys = sorted({int(k) for k in re.findall(r"\[(\d+)\]", expr) if 1 <= int(k) <= 499 or 2000 <= int(k) <= 2499})
+            traces.append({"id": i, "asg": [[k, asg.get(k, asg.get(str(k), "U"))] for k in keys], "tree": tree, "final": final})
+
+    set_keymap(None)
+    asyncio.run(go())
+    t2, acc, diag = validate_traces("EvalResultTrace", "EvalResultTrace.cfg", traces, work, tag=tag)
+    return t2, [(t["id"] - 1, t["final"], diag.get(t["id"], (0, ()))[1]) for t in traces if t["id"] not in acc]
+
+
 def trace_validation(res: Result, work: Work, n_random=600, max_leaves=25):
     import ahb
     rng = random.Random(seed() * 7919 + 17)
@@ -821,13 +895,12 @@ def trace_validation(res: Result, work: Work, n_random=600, max_leaves=25):
     t2, acc, diag = validate_traces("EvalTrace", "EvalTrace.cfg", slim, work, tag="evaltrace")
     res.add_tlc("EvalTrace: recorded callbacks of the real transformer (unit-test literals + random deep expressions)", t2)
     res.count("traces_validated_against_impl", len(usable))
+    stepwise_rejected = []
     for t in usable:
         res.distinct(("trace", t["expr"], tuple(map(tuple, t["asg"]))), nontrivial=len(t["events"]) > 1)
         if t["id"] not in acc:
-            at, exp = diag.get(t["id"], (0, ()))
-            ev = t["events"][at - 1] if 0 < at <= len(t["events"]) else None
-            res.violation(f"recorded evaluation of '{t['expr']}' is not a behaviour of Eval.tla: event {at} {ev}; the spec computes {exp}",
-                          {"kind": "trace", "expr": t["expr"], "asg": dict(map(tuple, t["asg"])), "event_index": at, "event": ev})
+            stepwise_rejected.append(t)
+    report_stepwise_rejections(res, work, stepwise_rejected, diag)
     if usable:
         res.sample({"recorded_trace_of": usable[-1]["expr"], "events": len(usable[-1]["events"]), "last_event": usable[-1]["events"][-1]})
     return traces
@@ -882,12 +955,60 @@ def unit_test_suite_traces(res: Result, work: Work, which="rc"):
     res.add_tlc(f"{module}: every transformer run recorded while the repository's own tests executed ({len(batch)} runs)", t2)
     res.count("traces_validated_against_impl", len(batch))
     res.coverage["repository_test_runs_validated"] = len(batch)
-    for t in batch:
-        if t["id"] not in acc:
+    rejected = [t for t in batch if t["id"] not in acc]
+    if not rejected:
+        return
+    # second level: decided on results (the expression is reconstructed from the recorded callbacks where they form a complete traversal)
+    second, undecidable = [], 0
+    for t in rejected:
+        tree, final = reconstruct_from_events(t["events"], which)
+        if tree is None:
+            undecidable += 1
+            continue
+        if which == "rc":
+            second.append({"id": t["id"], "asg": [p for p in t["asg"] if p[0] != 0], "tree": tree, "final": final})
+        else:
+            b = {e["key"]: e["res"]["ok"] for e in t["events"] if e["op"] == "leaf"}
+            second.append({"id": t["id"], "b": [[k, v] for k, v in sorted(b.items())], "tree": tree, "final": final})
+    res.coverage["suite_runs_with_other_callback_structure"] = len(rejected)
+    res.coverage["suite_runs_not_reconstructible_from_callbacks"] = undecidable
+    if not second:
+        return
+    m2 = "EvalResultTrace" if which == "rc" else "FcResultTrace"
+    t3, acc3, diag3 = validate_traces(m2, m2 + ".cfg", second, work, tag="suite2-" + which)
+    res.add_tlc(f"{m2}: {len(second)} recorded runs whose callbacks the machine does not reproduce, decided on their results", t3)
+    for t in second:
+        if t["id"] not in acc3:
             at, exp = diag.get(t["id"], (0, ()))
-            ev = t["events"][at - 1] if 0 < at <= len(t["events"]) else None
-            res.violation(f"a transformer run recorded during the repository's tests is not a behaviour of {module}: event {at} {ev}; the spec computes {exp}",
-                          {"kind": "suite-trace", "events": t["events"], "event_index": at})
+            res.violation(f"a transformer run recorded during the repository's tests is not a behaviour of {module} (event {at}; the spec computes {exp}) and its "
+                          f"result {t['final']} contradicts the documented semantics {diag3.get(t['id'], (0, ()))[1]} for the expression {t['tree']}",
+                          {"kind": "suite-trace", "tree": t["tree"], "final": t["final"]})
+
+
+def reconstruct_from_events(events, which="rc"):
+    """recorded callbacks -> (syntax tree, final result) if they form a complete post-order traversal (one callback per node, every composition on the
+    results of earlier callbacks), else (None, None). An error raised by a composition: the tree is that composition (errors are structural)."""
+    stack = []
+    for e in events:
+        if e["op"] == "skip":
+            return None, None
+        if e["op"] == "leaf":
+            stack.append((["leaf", e.get("kind", "fc"), e["key"]], e["res"]))
+            continue
+        if len(stack) < 2 or e.get("l") != stack[-2][1] or e.get("r") != stack[-1][1]:
+            return None, None
+        (lt, _), (rt, _) = stack[-2], stack[-1]
+        del stack[-2:]
+        tree = [e["op"], lt, rt]
+        if "err" in e:
+            return tree, {"err": e["err"], "st": "-", "fcx": []}
+        stack.append((tree, e["res"]))
+    if len(stack) != 1:
+        return None, None
+    tree, r = stack[0]
+    if which == "rc":
+        return tree, {"err": "nil", "st": r["st"], "fcx": r["fcx"]}
+    return tree, {"ok": r["ok"], "has_msg": r["has_msg"]}
 
 
 # ------------------------------------------------------------------ spec -> code for deep random behaviours (tlc -simulate)
